@@ -30,6 +30,18 @@ CHECKS = {
         technique="Coq proof (induction over layers with a recording invariant) + float model/implementation correspondence + slice translator/bridge",
         design="6/C10",
     ),
+    "C02": dict(
+        text="Machine-checked Coq theorem about Model/Solver.v for every Ops satisfying the field laws: for EVERY real source field, on-grid measurement point, halo (any px, py), mode truncation, profile set, level list, numerical or analytic branch, sum(q*footprint) equals the forward flux at the tower and sum(q*concentration Green's function) the forward concentration above background; plus the identity 'footprint shift = forward phase at the padded tower index' that the raw-halo shift violated. Tie: whole-solve float correspondence over all halo kinds x dx != dy x precisions, and bridge lemmas on both shift arguments.",
+        note="Exact-arithmetic theorem for double-precision storage (Laws O, non-vacuous by Base/ROps.v); the single-precision clause is carried by the oracle with the property's storage tolerance. pyFFTW = DFT definition, numba = Python source are modelling assumptions validated by the correspondence.",
+        technique="Coq proof (exchange of finite sums, multiplicativity of cis) + slice translator/bridge + float model/implementation correspondence",
+        design="6/C02",
+    ),
+    "C03": dict(
+        text="Machine-checked Coq theorems about Model/Solver.v: on the full periodic domain the horizontal sum of the flux at every level is nx*ny*Re(q00) with q00 the source mean (dispersion) or 1/(nx*ny) (footprint, hence unit mass), and that of the concentration nx*ny*Re(background - q00*resistance) with the resistance the trapezoid the code accumulates; proved from orthogonality of the roots of unity. The halo == explicit padding clause is carried by the model's construction, the correspondence and the pad/crop oracle (not a theorem yet).",
+        note="Partial: 'halo equals zero-padding + crop' is not proved as a theorem; trapezoid-vs-integral is outside the statement. Exact arithmetic (Laws O incl. primitivity of roots of unity, proved for the complex instance ROps).",
+        technique="Coq proof (geometric sums / orthogonality over the frequency-set representation) + float correspondence + slice translator/bridge",
+        design="6/C03",
+    ),
 }
 
 NOT_YET = "check not built yet in this round of work (planned in DESIGN.md section 6); no claim is made"
